@@ -365,6 +365,15 @@ func (e *verifEnv) SetRemoteDBTimeout(d time.Duration)                { e.State.
 func (e *verifEnv) SyncCache() error {
 	return copyDBIntoSQLite(e.State.db, e.State.cacheDB, "sqlite")
 }
+func (e *verifEnv) UpsertSigned(user string, dataType int, expiration int64, data string) error {
+	return e.State.UpsertSigned(user, dataType, expiration, data)
+}
+func (e *verifEnv) GetSigned(user string, dataType int) (bool, string, error) {
+	return e.State.GetSigned(user, dataType)
+}
+func (e *verifEnv) DeleteSigned(user string, dataType int) error {
+	return e.State.DeleteSigned(user, dataType)
+}
 func (e *verifEnv) CleanupExpired() {
 	cleanupDBData(e.State.db)
 	cleanupDBData(e.State.cacheDB)
